@@ -6,8 +6,11 @@ import (
 	"math/rand"
 	"os"
 	"os/exec"
+	"runtime"
 	"strings"
 	"sync"
+
+	"sigs.k8s.io/kustomize/kyaml/openapi"
 )
 
 // C16: independent builds (built-in schema only) run concurrently without interfering.
@@ -107,6 +110,38 @@ func init() {
 		}
 		fmt.Printf("DONE mismatches=%d\n", bad)
 	}
+	// c16probe: the assumption behind "readers need no lock after initialisation", probed directly under -race: one
+	// goroutine starts default builds' schema selections (what every Kustomizer.Run does first) while another holds the
+	// root schema and reads it, as a merge walker does in the middle of a build.  A reset from the default schema to the
+	// default schema must not WRITE the shared schema.
+	extraCmds["c16probe"] = func(args []string) {
+		openapi.ResetOpenAPI()
+		s := openapi.Schema() // initialised; the walker's view
+		_ = len(s.Definitions)
+		var wg sync.WaitGroup
+		wg.Add(2)
+		go func() {
+			defer wg.Done()
+			for i := 0; i < 200; i++ {
+				_ = openapi.SetSchema(nil, nil, true)
+				runtime.Gosched()
+			}
+		}()
+		go func() {
+			defer wg.Done()
+			n := 0
+			for i := 0; i < 2000; i++ {
+				n += len(s.Definitions)
+				if i%10 == 0 {
+					n += len(openapi.Schema().Definitions)
+				}
+				runtime.Gosched()
+			}
+			fmt.Println("READ", n > 0)
+		}()
+		wg.Wait()
+		fmt.Println("DONE mismatches=0")
+	}
 	oracles["C16"] = func(seed int64, n int, tier, work string) *oracleReport {
 		o := newOracleRun("C16", seed)
 		self, _ := os.Executable()
@@ -119,10 +154,13 @@ func init() {
 		if tier == "thorough" {
 			ks = []int{2, 4, 8, 16}
 		}
-		for i := 0; i < n; i++ {
-			k := ks[i%len(ks)]
+		for i := -1; i < n; i++ {
+			k := ks[(i+len(ks))%len(ks)]
 			sd := seed*1000 + int64(i)
 			cmd := exec.Command(race, "c16run", "--seed", fmt.Sprint(sd), "--k", fmt.Sprint(k), "--rounds", "3")
+			if i == -1 {
+				cmd = exec.Command(race, "c16probe")
+			}
 			cmd.Env = append(os.Environ(), "GORACE=halt_on_error=0 exitcode=0")
 			var errb strings.Builder
 			cmd.Stderr = &errb
